@@ -44,7 +44,8 @@ REG.schema("Simulator", bases=["BaseSimObj"],
            network=Ref("ChargingNetwork", exact=True), scheduler=Ref("BaseAlgorithm", nullable=True), max_recompute=Opt(Int),
            event_queue=Ref("EventQueue"), period=Real, verbose=Bool, pilot_signals=Mat, charging_rates=Mat, peak=Real,
            ev_history=Map(Id, Ref("EV"), ordered=True), event_history=Seq(Ref("Event")),
-           schedule_history=Opt(Map(Int, Map(Id, Seq(Real), ordered=True))), _iteration=Int, _resolve=Bool, _last_schedule_update=Opt(Int))
+           schedule_history=Opt(Map(Int, Map(Id, Seq(Real), ordered=True))), _iteration=Int, _resolve=Bool, _last_schedule_update=Opt(Int),
+           signals=Map(Id, Ref("TimeOfUseTariff")), start=Ref("datetime"))
 
 # ---- library objects modelled by ghost fields
 REG.schema("datetime", theta=Real)       # theta = datetime.timestamp(): seconds since the epoch (A-LIB)
